@@ -1195,6 +1195,9 @@ func (tc *typechecker) checkFunc(node *ast.Func) {
 	if !tc.terminating && !node.Type.Macro && len(node.Type.Result) > 0 {
 		panic(tc.errorf(node, "missing return at end of function"))
 	}
+	// The statement that contains the function is not terminating because
+	// the body of the function is.
+	tc.terminating = false
 	tc.ancestors = tc.ancestors[:len(tc.ancestors)-1]
 	tc.scopes.Exit()
 }
